@@ -5,7 +5,7 @@ from core import mkmap, given_items
 from schc_run import Batch, obs_bits, with_timeout, parser_for
 from schc_util import gen_rule, gen_rfd, KINDS, fid_of, DIRC, MOC, CDAC, prefix_free_ids, i2b
 from gens import gen_parsed, gen_ruleset, synth_case, synth_pdesc, payload_variants, b2s, no_compression_rule
-from microschc.rfc8724 import (FieldDescriptor, PacketDescriptor, RuleFieldDescriptor, RuleDescriptor, MatchMapping, RuleNature,
+from microschc.rfc8724 import (FieldDescriptor, HeaderDescriptor, PacketDescriptor, RuleFieldDescriptor, RuleDescriptor, MatchMapping, RuleNature,
                                DirectionIndicator as DI, MatchingOperator as MO, CompressionDecompressionAction as CDA)
 from microschc.rfc8724extras import Context
 from microschc.manager import ContextManager
@@ -41,6 +41,8 @@ def canon_json(tree, parent=None, key=None):
         return str(tree)
     if isinstance(tree, str):
         s = str(tree.value) if hasattr(tree, 'value') else tree
+        if key == 'id' and isinstance(parent, dict) and 'fields' in parent and 'length' in parent:
+            return '"t%d"' % text_code(s)          # the id of a header descriptor is a protocol name
         if key == 'id' and isinstance(parent, dict) and 'parser_id' not in parent:
             f = fid_of(s)
             return '"f%s%d"' % f
@@ -62,10 +64,20 @@ def all_buffers(obj, acc):
     elif isinstance(obj, (list, tuple)):
         for x in obj:
             all_buffers(x, acc)
-    elif isinstance(obj, (FieldDescriptor, PacketDescriptor, RuleFieldDescriptor, RuleDescriptor, Context)):
+    elif isinstance(obj, (FieldDescriptor, HeaderDescriptor, PacketDescriptor, RuleFieldDescriptor, RuleDescriptor, Context)):
         for x in vars(obj).values():
             all_buffers(x, acc)
     return acc
+
+
+def header_parser_for(stack):
+    """the parser of the first header of a stack"""
+    from microschc.protocol.ipv6 import IPv6Parser
+    from microschc.protocol.ipv4 import IPv4Parser
+    from microschc.protocol.udp import UDPParser
+    from microschc.protocol.coap import CoAPParser
+    from microschc.protocol.sctp import SCTPParser
+    return {'IPv6-UDP-CoAP': IPv6Parser, 'IPv4-UDP-CoAP': IPv4Parser, 'UDP': UDPParser, 'CoAP': CoAPParser, 'SCTP': SCTPParser}[stack]()
 
 
 def tv_tokens(tv):
@@ -172,6 +184,24 @@ def run(rep, tier, seed):
             t += [fi[0], str(fi[1]), str(f.position), raw(f.value)]
         t += [raw(pd.payload), raw(pd.raw)]
         add(b, PacketDescriptor, pd, 'packet-descriptor', ' '.join(t))
+        # single field descriptors (FieldDescriptor has its own json / from_json / ==), values of either padding side
+        for f in rnd.sample(pd.fields, min(3, len(pd.fields))):
+            fi = fid_of(f.id)
+            fx = FieldDescriptor(id=f.id, value=mk(bits_of(f.value), rnd.choice([L, R])), position=f.position)
+            add(b, FieldDescriptor, fx, 'field-descriptor', ' '.join(['J', 'field', fi[0], str(fi[1]), str(fx.position), raw(fx.value)]))
+            other = FieldDescriptor(id=f.id, value=mk(bits_of(f.value) + '1'), position=f.position)
+            if impl_outcome(lambda: (fx == other, fx == FieldDescriptor(id=f.id, value=f.value, position=f.position + 1), fx == 'x')) != ('OK', (False, False, False)):
+                rep.violation('property', 'field descriptor compares equal to one with another value, another position or to a string', dict(layer='json', op='field-eq', json=fx.json()))
+        # header descriptors as the header parsers return them
+        hp = header_parser_for(stack)
+        oh = impl_outcome(lambda: hp.parse(Buffer(pkt, len(pkt) * 8)))
+        if oh[0] == 'OK' and isinstance(oh[1], HeaderDescriptor):
+            hd = oh[1]
+            t = ['J', 'header', str(text_code(str(getattr(hd.id, 'value', hd.id)))), str(hd.length), str(len(hd.fields))]
+            for f in hd.fields:
+                fi = fid_of(f.id)
+                t += [fi[0], str(fi[1]), str(f.position), raw(f.value)]
+            add(b, HeaderDescriptor, hd, 'header-descriptor', ' '.join(t))
         # rule field descriptors of every kind, rules, contexts
         rules = gen_ruleset(rnd, pd, match_prob=0.8)
         if i % 2:
